@@ -183,3 +183,12 @@ pub fn merge_json(report: &Report, v: &Value) {
         report.rejected();
     }
 }
+
+/// worker threads of a check (`VERIF_THREADS`, default 16)
+pub fn verif_threads() -> usize {
+    std::env::var("VERIF_THREADS")
+        .ok()
+        .and_then(|s| s.parse::<usize>().ok())
+        .unwrap_or(16)
+        .clamp(1, 64)
+}
